@@ -183,6 +183,10 @@ func TestModularArithmetic(t *testing.T) {
 			extra = fmt.Sprintf("unit=%v", unit(y.v))
 		case "MultiBaseExp":
 			k := rapid.IntRange(1, 3).Draw(t, "k")
+			if rapid.IntRange(1, 16).Draw(t, "manyBases") == 16 {
+				// MultiBaseExp starts one goroutine per base and has no limit on their number
+				k = rapid.SampledFrom([]int{4, 5, 8, 9, 17}).Draw(t, "kBig")
+			}
 			e := genNatOp(t, "e", min(au.m.BitLen()+10, 700), true)
 			bases, vals, outs := make([]*numct.Nat, k), make([]*big.Int, k), make([]*numct.Nat, k)
 			for i := range bases {
@@ -246,6 +250,18 @@ func TestModularArithmetic(t *testing.T) {
 	})
 }
 
+// genBigDecomposeArg: once in 12 calls a non-zero value of 4095..4200 or ~5000 bits. The Decompose
+// dispatchers take any modulus as the value to reduce and switch from the serial to the
+// goroutine variant at m.BitLen() > 4096 (crt.go, crt_multi.go); a+1 < N never reaches that.
+func genBigDecomposeArg(t *rapid.T) *big.Int {
+	if rapid.IntRange(1, 12).Draw(t, "bigDecompose") != 12 {
+		return nil
+	}
+	bits := rapid.SampledFrom([]int{4095, 4096, 4096, 4097, 4097, 4100, 4160, 5000}).Draw(t, "decBits")
+	v, _ := genMagOfBits(t, "dec", bits)
+	return v
+}
+
 // genCoprimes draws k pairwise coprime moduli > 1 (not necessarily prime).
 func genCoprimes(t *rapid.T, k, maxBits int) []*big.Int {
 	out := make([]*big.Int, 0, k)
@@ -295,6 +311,12 @@ func TestCRTRecombine(t *testing.T) {
 		if variant == "Multi" {
 			k = rapid.IntRange(2, 7).Draw(t, "k")
 			maxB = 260
+			if rapid.IntRange(1, 16).Draw(t, "manyFactors") == 16 {
+				// ParamsMulti has no limit on the number of factors (serial Garner up to 4 factors,
+				// goroutines above; Decompose goes parallel above 3): more, smaller factors
+				k = rapid.SampledFrom([]int{8, 9, 12, 16, 17}).Draw(t, "kBig")
+				maxB = 96
+			}
 		}
 		fs := genCoprimes(t, k, maxB)
 		N := big.NewInt(1)
@@ -326,6 +348,12 @@ func TestCRTRecombine(t *testing.T) {
 			mp, mq := ext.Decompose(mustModulus(t, new(big.Int).Add(a, b1)))
 			wantNat(t, what+" Decompose p", mp, new(big.Int).Mod(new(big.Int).Add(a, b1), fs[0]), -1)
 			wantNat(t, what+" Decompose q", mq, new(big.Int).Mod(new(big.Int).Add(a, b1), fs[1]), -1)
+			if d := genBigDecomposeArg(t); d != nil {
+				mp, mq := ext.Decompose(mustModulus(t, d))
+				wantNat(t, fmt.Sprintf("%s Decompose(%d-bit) p", what, d.BitLen()), mp, new(big.Int).Mod(d, fs[0]), -1)
+				wantNat(t, fmt.Sprintf("%s Decompose(%d-bit) q", what, d.BitLen()), mq, new(big.Int).Mod(d, fs[1]), -1)
+				cls += "/decompose-big"
+			}
 		case "ParamsExtended":
 			ext, ok := crt.NewParamsExtended(mustModulus(t, fs[0]), mustModulus(t, fs[1]))
 			if !ctb(ok) {
@@ -395,6 +423,12 @@ func TestCRTRecombine(t *testing.T) {
 			}
 			for i, d := range prm.Decompose(mustModulus(t, new(big.Int).Add(a, b1))) {
 				wantNat(t, fmt.Sprintf("%s Decompose[%d]", what, i), d, new(big.Int).Mod(new(big.Int).Add(a, b1), fs[i]), -1)
+			}
+			if arg := genBigDecomposeArg(t); arg != nil {
+				for i, d := range prm.Decompose(mustModulus(t, arg)) {
+					wantNat(t, fmt.Sprintf("%s Decompose(%d-bit)[%d]", what, arg.BitLen(), i), d, new(big.Int).Mod(arg, fs[i]), -1)
+				}
+				cls += "/decompose-big"
 			}
 			cls += fmt.Sprint("/k=", k)
 		case "NotCoprime":
